@@ -75,7 +75,7 @@ type Engine struct {
 	SrcFiles         []string
 }
 
-var directiveRe = regexp.MustCompile(`(?m)^//\s*vh:(\w+)\s*(.*)$`)
+var directiveRe = regexp.MustCompile(`(?m)^//[ \t]*vh:(\w+)[ \t]*(.*)$`)
 
 const toolchainBin = "/root/go/pkg/mod/golang.org/toolchain@v0.0.1-go1.24.0.linux-amd64/bin"
 
